@@ -9,13 +9,20 @@
     for requests of ALL kinds (publish, subscribe, unsubscribe), for every script without any
     hypothesis, in terms of a ghost labelling of the request packets that tells the application's
     requests from the library's own re-subscriptions; `labels_match_wire` ties the labelling to the
-    wire log packet by packet. (Separate section at the end of this file.)
+    wire log packet by packet. (Separate section "ALL REQUEST KINDS".)
+  * `no_request_skipped`, `no_request_skipped_earlier`, `owed_requests_prefix`: the completeness half,
+    for every script without any hypothesis: when request `j` has been attempted on the wire, every
+    request submitted before it that was accepted (submitted before Disconnect) and is not a QoS 0 publish
+    has been attempted too, and earlier; the owed requests attempted so far are exactly the first `k`
+    owed requests. Invariant and proofs: `MqttVerif/Proofs/RetryOrderComplete.lean`. (Last section,
+    "NO REQUEST IS SKIPPED".)
   * `first_delivery_order`: the statement as given is FALSE OF THE MODEL for an invalid QoS value
     (`.app (.pub m 3)`), see `first_delivery_order_asStated_false`; with the extra hypothesis
     `ValidQos s` (every submitted QoS is ≤ 2) it is proved, and in fact in the stronger form
     `first_delivery_order_strong` (all QoS levels, no assumption on kept sessions).
 -/
 import MqttVerif.Proofs.RetryOrder
+import MqttVerif.Proofs.RetryOrderComplete
 
 namespace Mqtt.C03
 open Mqtt.Retry
@@ -258,5 +265,104 @@ example : reqLabels demoAmbiguous = [some 0, none, none, some 1, some 2] := by d
 example : reqLabels demoDiscBackoff = [some 0] := by decide +kernel
 example : reqLabels demoDiscDial = [some 0] := by decide +kernel
 example : reqLabels demoCancel = [some 0] := by decide +kernel
+
+/-! ## NO REQUEST IS SKIPPED
+
+  `first_transmissions_subsequence` alone would also hold of a client that silently drops a QoS 1
+  request and transmits a later one. The statements below exclude that: the requests attempted on the
+  wire are downward closed among the requests that are OWED a transmission — accepted (submitted while
+  the client was not stopped, i.e. before the first Disconnect: `accepted_iff_before_disconnect`) and not
+  a QoS 0 publish (a QoS 0 publish submitted while requests wait for a retry is dropped, retryclient.go:
+  168-174). Requests may stay un-attempted at the END of the run only: still queued (outage, Disconnect)
+  or behind a request that blocks for ever (silent broker, no response timeout). -/
+
+/-- the accepted requests are those submitted before the first `.disconnect` event of the script -/
+theorem accepted_iff_before_disconnect (s : Script) : acceptedIdx s = beforeDisconnect s.evs 0 :=
+  acceptedIdx_eq s
+
+/-- `Owed s i` (accepted and not a QoS 0 publish), as a list of submission indices -/
+theorem mem_owedIdx_iff (s : Script) (i : Nat) :
+    i ∈ owedIdx s ↔ i ∈ acceptedIdx s ∧ ∀ m, (appReqs s.evs)[i]? ≠ some (.pub m 0) :=
+  mem_owedIdx s i
+
+theorem mem_reqAttempts (s : Script) (i : Nat) : i ∈ reqAttempts s ↔ some i ∈ reqLabels s := by
+  unfold reqAttempts apps
+  rw [List.mem_filterMap]
+  constructor
+  · rintro ⟨a, ha, rfl⟩; exact ha
+  · intro h; exact ⟨some i, h, rfl⟩
+
+/-- No request is skipped: if request number `j` has been attempted on the wire then every request
+    number `i < j` that was accepted and is not a QoS 0 publish has been attempted too. For every script,
+    fault sequence and configuration. -/
+theorem no_request_skipped (s : Script) (i j : Nat) (hj : some j ∈ reqLabels s) (hi : Owed s i)
+    (hij : i < j) : some i ∈ reqLabels s :=
+  (mem_reqAttempts s i).1 (no_skip s i j ((mem_reqAttempts s j).2 hj) hi hij)
+
+/-- … and it was attempted before: in front of every attempt of request `j` there is an attempt of
+    every owed request `i < j`. -/
+theorem no_request_skipped_earlier (s : Script) (pre post : List Nat) (i j : Nat)
+    (h : reqAttempts s = pre ++ j :: post) (hi : Owed s i) (hij : i < j) : i ∈ pre := by
+  have hi' : i ∈ reqAttempts s := no_skip s i j (by show j ∈ reqAttempts s; rw [h]; simp) hi hij
+  have hs := request_order s
+  rw [h] at hi' hs
+  rcases List.mem_append.1 hi' with h1 | h1
+  · exact h1
+  · have hjp := (List.pairwise_append.1 hs).2.1
+    rw [List.pairwise_cons] at hjp
+    rcases List.mem_cons.1 h1 with h2 | h2
+    · omega
+    · have := hjp.1 i h2; omega
+
+/-- The owed requests, listed in the order of their first transmission, are exactly the first `k` owed
+    requests in submission order, for some `k` (the set of attempted owed requests is downward closed). -/
+theorem owed_requests_prefix (s : Script) :
+    ∃ k, (firsts (reqAttempts s)).filter (· ∈ owedIdx s) = (owedIdx s).take k :=
+  owed_first_transmissions_prefix s
+
+/-! ### non-vacuity -/
+
+/-- request 0 (QoS 1) is lost with its connection; while it waits for the retry, request 1 (a QoS 0
+    publish) is dropped, requests 2 (subscribe) and 3 (QoS 1 publish) are queued behind it; on the next
+    connection the retransmission of request 0 goes first, then 2, then 3 -/
+def demoQueued : Script :=
+  { faults := [.lostReq],
+    evs := [.start, .dialOk 10, .connackOk false [], .app (.pub 1 1), .app (.pub 2 0), .app (.sub [sA]),
+            .app (.pub 3 1), .waitElapsed, .dialOk 20, .connackOk true []] }
+
+example : reqLabels demoQueued = [some 0, some 0, some 2, some 3] := by decide +kernel
+example : wireKeys (exec demoQueued) = [.pub 1, .pub 1, .sub [sA], .pub 3] := by decide +kernel
+example : acceptedIdx demoQueued = [0, 1, 2, 3] := by decide +kernel
+example : owedIdx demoQueued = [0, 2, 3] := by decide +kernel
+example : (firsts (reqAttempts demoQueued)).filter (· ∈ owedIdx demoQueued) = (owedIdx demoQueued).take 3 := by
+  decide +kernel
+
+/-- Disconnect while the loop backs off (`demoDiscBackoff` above): request 0 was attempted, request 1
+    (subscribe) is accepted and stays queued for ever, request 2 is refused (not accepted) -/
+example : reqLabels demoDiscBackoff = [some 0] := by decide +kernel
+example : acceptedIdx demoDiscBackoff = [0, 1] := by decide +kernel
+example : owedIdx demoDiscBackoff = [0, 1] := by decide +kernel
+example : (firsts (reqAttempts demoDiscBackoff)).filter (· ∈ owedIdx demoDiscBackoff) =
+    (owedIdx demoDiscBackoff).take 1 := by decide +kernel
+
+/-- the run `demoAll` above: all accepted requests except the two dropped QoS 0 publishes (3 and 7) are
+    attempted; request 9, submitted after Disconnect, is not accepted -/
+example : acceptedIdx demoAll = [0, 1, 2, 3, 4, 5, 6, 7, 8] := by decide +kernel
+example : owedIdx demoAll = [0, 1, 2, 4, 5, 6, 8] := by decide +kernel
+example : (firsts (reqAttempts demoAll)).filter (· ∈ owedIdx demoAll) = (owedIdx demoAll).take 7 := by
+  decide +kernel
+
+/-- a silent broker and no response timeout: the retransmission of request 0 blocks `Retry` for ever; the
+    queued request 1 is never attempted (and, in the model, no longer in `retryQ`: the loop holds the rest
+    of the old queue in a local variable). Nothing later is attempted either. -/
+def demoBlocked : Script :=
+  { faults := [.lostReq, .silent],
+    evs := [.start, .dialOk 10, .connackOk false [], .app (.pub 1 1), .app (.pub 2 1),
+            .waitElapsed, .dialOk 20, .connackOk true [], .app (.pub 3 1)] }
+
+example : reqLabels demoBlocked = [some 0, some 0] := by decide +kernel
+example : owedIdx demoBlocked = [0, 1, 2] := by decide +kernel
+example : ((exec demoBlocked).stuck, (exec demoBlocked).retryQ, (exec demoBlocked).taskQ) =
+    (true, [], [.req (.pub 3 1)]) := by decide +kernel
 
 end Mqtt.C03
